@@ -327,7 +327,7 @@ def why_not(v, t, inside=False):
                 return why_not(b, t["vt"], True)
     if k == "obj" and v["k"] == "none" and inside:
         return "none-in-container"
-    return f"stored-nonconforming:{k}:{v['k']}"
+    return f"stored-nonconforming:{k}"
 
 
 def coerce_doc(v, t):
@@ -542,7 +542,8 @@ def oracle_graph(c, case, answers):
                 key = "C15:missing-accepted"
                 what = "a required value is missing in the parameter graph and the task is accepted"
             c.violation(key, what, data)
-        visited_before |= set(reach)
+        if a["raised"]:
+            visited_before |= set(reach)      # nodes an earlier, failed validation may have marked
 
 
 # ------------------------------------------------------------------ Gallina rendering
@@ -689,7 +690,7 @@ def run_driver(c, assign, graphs, nproc=16):
     ng = max(1, (len(graphs) + nproc - 1) // nproc)
     for i in range(nproc):
         a, g = assign[i * na:(i + 1) * na], graphs[i * ng:(i + 1) * ng]
-        if a or g:
+        if a or g or not chunks:
             chunks.append((a, g))
     scratch = str(c.scratch())
 
@@ -755,8 +756,11 @@ def run(c: Check):
     base = len(graphs)
     for i in range(n_graph):
         graphs.append(gen_graph(c.rng, base + i + 1))
+    import time
+    t0 = time.time()
     table, ra, rg = run_driver(c, assign, graphs)
     check_table(table)
+    c.extra["driver_wall_s"] = round(time.time() - t0, 1)
 
     viol_before = 0
     for case, a in zip(assign, ra):
@@ -767,6 +771,8 @@ def run(c: Check):
         c.count("assign:top=" + strip_opt(case["annot"])["k"])
         if case.get("edit_depth") is not None:
             c.count("assign:edit_depth=%d" % case["edit_depth"])
+        if case.get("stream") == "offbyone" and a["declared"]:
+            c.count("assign:offbyone=" + ("raised" if a["raised"] else "stored"))
         c.count("assign:outcome=" + ("undeclarable" if not a["declared"] else ("raised:" + a.get("exc", "?") if a["raised"] else "stored")))
         if type_depth(strip_opt(case["annot"])) >= 1 or strip_opt(case["annot"])["k"] == "obj":
             c.nontrivial.add(json.dumps([case["annot"], case["v"], case.get("old"), case.get("sealed")], sort_keys=True))
@@ -779,6 +785,10 @@ def run(c: Check):
         for op, x in zip(case["ops"], a):
             c.count("graph:" + op["op"] + ("=raised:" + x.get("exc", "?") if x["raised"] else "=accepted"))
         r = reachable(case["nodes"], case["ops"][0]["root"], case["ops"][0].get("init", []))
+        miss = [i for i in range(len(case["nodes"])) if lacks(case["nodes"][i])]
+        direct = reachable(case["nodes"], case["ops"][0]["root"], case["ops"][0].get("init", []), deep=False)
+        c.count("graph:missing=" + ("nowhere" if not miss else "unreachable" if not any(i in r for i in miss)
+                                    else "held-directly" if any(i in direct for i in miss) else "only-through-list-or-dict"))
         if len(r) >= 3:
             c.nontrivial.add(json.dumps([case["nodes"], case["ops"]], sort_keys=True))
     # the oracle sees the cases smallest first, so that the replay kept for a key is the smallest failing input
@@ -793,6 +803,7 @@ def run(c: Check):
               "Import ListNotations.\nOpen Scope Z_scope.\n" + g_classes(table) + "\n")
     bad_a = c.corr_shards("assign", header, assign, g_assign, "check_assign cl", shard=400)
     bad_g = c.corr_shards("graph", header, graphs, lambda g: g_graph(g, table), "check_graph cl", shard=300)
+    c.extra["coq_corr_wall_s"] = round(time.time() - t0 - c.extra["driver_wall_s"], 1)
     c.extra["disagreeing_cases"] = ([dict(kind="assign", case={k: v for k, v in assign[i].items()}) for i in bad_a[:4]] +
                                     [dict(kind="graph", case={k: v for k, v in graphs[i].items()}) for i in bad_g[:4]])
     c.level_assumptions = [
